@@ -20,8 +20,12 @@ pub fn gen_doc(rng: &mut Rng, small: bool) -> (Vec<u8>, Vec<Tok>, String) {
                 o.max_toks = 12;
                 o.max_depth = 3;
             }
-            let t = gen_tree(rng, &o);
-            (concat(&t), t, "tree".into())
+            let mut t = gen_tree(rng, &o);
+            let mut note = String::from("tree");
+            if !small && rng.chance(1, 12) {
+                note.push_str(&format!("; stretched: {}", stretch_tokens(rng, &mut t, true)));
+            }
+            (concat(&t), t, note)
         }
         3 | 4 => {
             let t = gen_soup(rng, if small { 6 } else { 14 }, true);
